@@ -89,7 +89,7 @@ PROPS = {
     "C02": {
         "n_quick": 1500, "n_thorough": 37500,
         "technique": 'Coq proof (capture frame lemma over the CPS matcher) + correspondence on delivered parameter maps',
-        "level_text": 'proof: C02_regex_segment_values (binds of a regex segment get exactly the part their own expression matched in full, literals literal, parts concatenate), C02_regex_segment_accepts, C02_delivered_values (values are those of an adm derivation, decoded once)',
+        "level_text": 'proof: C02_regex_segment_values (binds of a regex segment get exactly the part their own expression matched in full, literals literal, parts concatenate), C02_regex_segment_accepts, C02_delivered_values (values are those of an adm derivation, decoded once), C02_roundtrip (substituting the values back into the route, with the optional segment iff the request used it, reproduces the path), C02_names (names are exactly the binds of the matched form, pairwise distinct)',
         "level_note": 'trusts Coq kernel, extraction, glue; Go regexp is modelled for a fragment (literals, classes, ., concatenation, alternation, greedy * + ? with non-nullable bodies, groups); regex subjects are ASCII; inner groups are non-capturing in the model; url.PathUnescape is re-implemented (validated by the correspondence)',
         "rule": 'random registration/Headers/request histories: 1-7 registrations from a collision-rich segment pool (statics incl. regex metacharacters, placeholders, regex segments with several binds / inner groups / random regex ASTs, match-all with capture 1|2|-1|3x, optional last segment, trailing slash), methods GET/other/Any/lower-case, ~8% ill-formed registrations; requests = instances of registered routes (regex parts sampled from the AST), perturbed instances, random segment strings; paths biased to regex segments, %-escapes valid/invalid/%2F. After a rejected registration the run continues on an instance rebuilt from the accepted operations (AddRoute is not atomic, F11). Non-trivial: the dispatched route has a regex-style segment.',
         "what": "delivered Params() map of every dispatched request vs model; spec: the values are a capture of the chosen route's pattern (every decomposition checked with the regex semantics), decoded once, and 'route' is the canonical text",
@@ -134,8 +134,8 @@ PROPS = {
     "C12": {
         "n_quick": 2500, "n_thorough": 60000,
         "technique": "Coq proof (the Replacer scan equals simultaneous hole filling, by induction on the skeleton) + correspondence on URLPath calls and on rebuilding dispatched requests",
-        "level_text": "proof: C12_simultaneous / C12_replacer_is_fill for every route, every value assignment with brace-free names, with and without the optional segment; tied to the code by Router.URLPath calls on named routes with values containing braces, other bind names, slashes, empty, duplicate and dangling pairs, withOptional variants, unknown/empty/duplicate names (panic), and by feeding each dispatched request's parameters back into URLPath",
-        "level_note": "trusts Coq kernel, extraction, glue; strings.NewReplacer is modelled (first pair in argument order whose key is a prefix; for brace-free names keys cannot overlap, so Go's map iteration order is irrelevant); C12_inverse at route level is checked by correspondence, not proved",
+        "level_text": "proof: C12_inverse / C12_inverse_values (for every form of a registered route and every derivation, filling the skeleton with the captured parameters - optional segment iff the form has it - spells the request path; binds pairwise distinct, C12_binds_distinct) and C12_simultaneous / C12_replacer_is_fill for every route, every value assignment with brace-free names, with and without the optional segment; tied to the code by Router.URLPath calls on named routes with values containing braces, other bind names, slashes, empty, duplicate and dangling pairs, withOptional variants, unknown/empty/duplicate names (panic), and by feeding each dispatched request's parameters back into URLPath",
+        "level_note": "trusts Coq kernel, extraction, glue; strings.NewReplacer is modelled (first pair in argument order whose key is a prefix; for brace-free names keys cannot overlap, so Go's map iteration order is irrelevant); the regex oracle returns group-free expressions",
         "rule": "1-4 registrations (10% ill-formed), most of them named (names incl. empty and duplicates), 2-7 URLPath calls per history with values from {'', v, {x}, {y}, /, {, }, {id}x, a}{b, 7, a/b, %41, 'x y'}, unknown names, withOptional true/false/1, repeated and dangling pairs; half followed by a request to an instance of the route whose delivered parameters are rebuilt both with and without the optional segment. Non-trivial: a supplied value contains a brace, or a dispatched request of the named route is rebuilt; distinct by input.",
         "what": "model Router.URLPath vs implementation (string or panic) per call; spec: result = simultaneous filling of the skeleton (fill), rebuilt path = request path for %-free paths.",
         "assumes": ["bind names and literals are brace-free (guaranteed by the route grammar)"],
